@@ -385,7 +385,7 @@ PROPS = {
     'C14': {'legs': [V('market'), V('menv')], 'design': '§5 C14'},
     # C15: what a contract can say - the processing order IS the library shuffle of the queue under the supplied generator, once, never reordered - + a statistical stand-in
     'C15': {'legs': [V('env', tags=['C15']), V('menv', tags=['C15']),
-                     R('shuffle_statistics', ['shuffle-stats', '--steps', '200000'], 'Env and MarketEnv<2,3>, mixed instruction kinds (placements and cancellations of resting orders, two assets): for batch sizes 2, 3, 4 all n! processing orders counted over 200000 seeded steps each, for batch size 8 the 8x8 position-by-item table and the 28 pairwise orders over 200000 seeded steps; every cell within the Bernstein bound for an unbiased shuffle (union bound over all 304 cells, false-alarm probability < 1e-9); deterministic (step k uses the generator seeded with base + k)')],
+                     R('shuffle_statistics', ['shuffle-stats', '--steps', '200000'], 'Env and MarketEnv<2,3>, three instruction mixes (placements alternating with cancellations of resting orders; cancellations only; placements only; two assets): for each mix, for batch sizes 2, 3, 4 all n! processing orders counted over 200000 seeded steps each, for batch size 8 the 8x8 position-by-item table and the 28 pairwise orders over 200000 seeded steps; every cell within the Bernstein bound for an unbiased shuffle (union bound over all 912 cells, false-alarm probability < 1e-9); deterministic (step k uses the generator seeded with base + k)')],
             'design': '§5 C15'},
     'C16': {'legs': [V('agents')], 'design': '§5 C16'},
     'C17': {'legs': [V('agents')], 'design': '§5 C17'},
